@@ -278,7 +278,13 @@ func genConstRange(w *World, res *CheckResult) {
 		e.AddVC(name+"/post:content", "post", fn.String(), s, Not(And(dynTypeTest(cur, constT), dynTypeTest(cv, sliceInt), Eq(ln, want), content)),
 			"a..b becomes the constant []int{a, a+1, ..., b} (empty when b < a): what makeRange builds at run time")
 		// the run-time range is charged to the memory budget; a precomputed one is not
-		e.AddVC(name+"/post:budget-transparent", "post", fn.String(), s, Not(BVCmp("bvslt", want, BV64(1000000))),
+		sq := NewState()
+		for _, pc := range s.pc {
+			if pc.Op != "forall" && pc.Op != "exists" && !pc.Bound {
+				sq.Assume(pc)
+			}
+		}
+		e.AddVC(name+"/post:budget-transparent", "post", fn.String(), sq, Not(BVCmp("bvslt", want, BV64(1000000))),
 			"a range is precomputed only if the unoptimized program could build it within the memory budget (size < 1e6 on an otherwise empty budget)")
 	}
 	if rewrites == 0 {
@@ -290,4 +296,106 @@ func genConstRange(w *World, res *CheckResult) {
 		}
 	}
 	res.Assumptions = append(res.Assumptions, e.Notes()...)
+}
+
+// genFoldUnary: fold.Exit on -a / +a with an integer literal a whose static
+// type the checker may have retyped (setTypeForIntegers stamps only the
+// literal; the UnaryNode keeps the type first computed, arbitrary here).
+func genFoldUnary(w *World, res *CheckResult) {
+	lay := astLayout{w}
+	foldFn := w.Func("optimizer.fold.Exit")
+	neg := w.Func("vm.negate")
+	if foldFn == nil || neg == nil {
+		res.Obls = append(res.Obls, missingObl("optimizer.fold[unary]/exists", "function not found"))
+		return
+	}
+	for _, n := range []string{"toInt", "toInt64", "toFloat64", "negate"} {
+		w.forceInline["vm."+n] = true
+	}
+	iface := types.NewInterfaceType(nil, nil)
+	for _, lt := range foldLitTypes(w) {
+		for _, op := range []string{"-", "+"} {
+			cell := fmt.Sprintf("optimizer.fold[unary%s,%s]", op, lt.name)
+			a := Fresh("a", SBV(64))
+			pa, ok := pushedInteger(w, a, lt.code)
+			if !ok {
+				res.Obls = append(res.Obls, missingObl(cell+"/post:transparent", "compiler.IntegerNode did not produce a single push"))
+				continue
+			}
+			e := NewExec(w)
+			e.SafeMode = func(f *ssa.Function) string { return "panics" }
+			var unopt []Outcome
+			if op == "-" {
+				unopt = e.Run(neg, []*Value{{T: iface, L: []*Term{pa}}}, NewState(), nil)
+			} else {
+				unopt = []Outcome{{St: NewState(), Res: []*Value{{T: iface, L: []*Term{pa}}}}}
+			}
+			st := NewState()
+			e.paramMode = true
+			fv := e.havocValue(st, foldFn.Params[0].Type(), "fold")
+			slot := e.havocValue(st, foldFn.Params[1].Type(), "node")
+			e.paramMode = false
+			st.Assume(Not(Eq(fv.One(), NilLoc)))
+			st.Assume(Not(Eq(slot.One(), NilLoc)))
+			un, ln := FreshPre(st, "unary"), FreshPre(st, "operand")
+			objs := []*Term{un, ln, slot.One(), fv.One()}
+			for i := range objs {
+				for j := i + 1; j < len(objs); j++ {
+					AssumeDistinctObjs(st, objs[i], objs[j])
+				}
+			}
+			old := lay.ptrVal("UnaryNode", un)
+			st.Store(slot.One(), old)
+			st.Store(LocField(un, lay.off("UnaryNode", "Operator")), StrLit(op))
+			st.Store(LocField(un, lay.off("UnaryNode", "Node")), lay.ptrVal("IntegerNode", ln))
+			st.Store(LocField(ln, lay.off("IntegerNode", "Value")), a)
+			st.Store(LocField(ln, 2), lt.code)
+			st.Store(LocField(un, 2), Fresh("unarytype", SInt))
+			fst := foldFn.Params[0].Type().Underlying().(*types.Pointer).Elem().Underlying().(*types.Struct)
+			st.Store(LocField(fv.One(), fieldLeafOffset(fst, 1)), NilLoc)
+			for _, o := range e.Run(foldFn, []*Value{fv, slot}, st, nil) {
+				if o.Panic != nil {
+					e.AddVC(cell+"/post:transparent", "post", foldFn.String(), o.St, True, "the rewrite itself must not fail")
+					continue
+				}
+				cur := o.St.Load(slot.One(), SVal)
+				if o.St.Simp(Eq(cur, old)) == True {
+					continue // not folded: nothing to compare
+				}
+				isInt := dynTypeTest(cur, types.NewPointer(w.namedType("ast", "IntegerNode")))
+				if o.St.Simp(isInt) != True {
+					e.AddVC(cell+"/post:transparent", "post", foldFn.String(), o.St, True, "the unary operation on an integer literal is replaced by something other than an integer literal")
+					continue
+				}
+				np := VSel("ptr_of", cur)
+				v2 := o.St.Load(LocField(np, lay.off("IntegerNode", "Value")), SBV(64))
+				t2 := o.St.Simp(o.St.Load(LocField(np, 2), SInt))
+				folded, ok := pushedInteger(w, v2, t2)
+				if !ok {
+					e.AddVC(cell+"/post:transparent", "post", foldFn.String(), o.St, True, "the folded literal carries a type the compiler cannot push")
+					continue
+				}
+				for _, u := range unopt {
+					if u.Panic != nil {
+						continue
+					}
+					s2 := o.St.Clone()
+					for _, p := range u.St.pc {
+						s2.Assume(p)
+					}
+					got := e.boxValue(s2, u.Res[0])
+					e.AddVC(cell+"/post:transparent", "post", foldFn.String(), s2, Not(Eq(got, folded)), "folded literal == negate(operand) (the operand itself for +): equal in kind and value")
+				}
+			}
+			for _, o := range e.obls {
+				if strings.HasPrefix(o.Name, cell+"/") {
+					o.Meta = map[string]string{"op": "unary" + op, "type": lt.name}
+					res.Obls = append(res.Obls, o)
+				}
+			}
+		}
+	}
+	for _, n := range []string{"toInt", "toInt64", "toFloat64", "negate"} {
+		delete(w.forceInline, "vm."+n)
+	}
 }
